@@ -44,7 +44,7 @@ def run_tlc(module, cfg, env=None, workers=1, extra=(), timeout=900, jvm=(), cwd
 
 
 STATS_RE = re.compile(r"(\d+) states generated, (\d+) distinct states found")
-VERDICT_RE = re.compile(r'<<"(ACCEPT|REJECT)", (\d+), (\d+), (\d+)>>')
+VERDICT_RE = re.compile(r'<<"(ACCEPT|REJECT)", (\d+), (\d+), (\d+)(?:, (0|".*"))?>>')
 COV_RE = re.compile(r"^<(\w+) line (\d+), col \d+ to line \d+, col \d+ of module (\w+)>: (\d+):(\d+)", re.M)
 
 
@@ -105,11 +105,18 @@ def validate_batch(batch, module="Trace_System.tla", cfg="Trace_System.cfg", sha
             for si, vs, g, d, wall in ex.map(one, range(shards)):
                 tot["states"] += g
                 tot["distinct"] += d
-                for verdict, t, reached, inv in vs:
+                for verdict, t, reached, inv, summ in vs:
                     k = parts[si][int(t) - 1]
                     nlines = len(batch[k]["lines"])
+                    spec_state = None
+                    if summ and summ != "0" and verdict == "REJECT":
+                        try:
+                            spec_state = json.loads(json.loads(summ))
+                        except ValueError:
+                            spec_state = None
                     results[k] = {"ok": verdict == "ACCEPT", "matched": max(0, int(reached) - 1),
-                                  "lines": nlines, "inv": (inv_names or INV_NAMES).get(int(inv), str(inv))}
+                                  "lines": nlines, "inv": (inv_names or INV_NAMES).get(int(inv), str(inv)),
+                                  "spec_state": spec_state}
     except MachineryError:
         raise
     else:
